@@ -403,3 +403,55 @@ def run(repo: Repo, rep: Report) -> None:
     from checks.c15 import translation_cache_rule
 
     translation_cache_rule(repo, rep, "C10.h-update-translation-not-cached", ("translateUpdate",))
+    real_default_graph_rule(repo, rep)
+
+
+def real_default_graph_rule(repo: Repo, rep: Report) -> None:
+    """(i) writes outside GRAPH go to the real default graph"""
+    up = repo.mod("rdflib.plugins.sparql.update")
+    rep.rule("C10.i-writes-target-real-default-graph",
+             "no update evaluator (nor _graphOrDefault/_graphAll) mutates, or hands out for mutation, `ctx.graph` itself: with the default-graph-is-union "
+             "switch on that is the union view of the dataset; the target of writes outside GRAPH is obtained through a selector that maps a "
+             "ConjunctiveGraph/Dataset to its default_context (`_defaultGraph(ctx)`, or the `type(ctx.graph) is Graph` test of evalModify)", floor=6)
+    # selectors: functions that return ctx.dataset.default_context / g.default_context for dataset-typed ctx.graph
+    selectors = set()
+    for q, f in up.functions():
+        if "." in q:
+            continue
+        rets = [r for r in own_nodes(f) if isinstance(r, ast.Return) and r.value is not None]
+        if rets and any("default_context" in norm(r.value) for r in rets) and any(isinstance(n, ast.If) and ("isinstance" in norm(n.test) or "type(" in norm(n.test)) for n in own_nodes(f)):
+            selectors.add(q)
+    rep.info["default_graph_selectors"] = sorted(selectors)
+    nsites = 0
+    for q, f in up.functions():
+        if "." in q or q in selectors:
+            continue
+        # names that alias ctx.graph directly
+        direct = set()
+        for n in own_nodes(f):
+            if isinstance(n, ast.Assign) and norm(n.value).endswith("ctx.graph") and isinstance(n.targets[0], ast.Name) and isinstance(n.value, ast.Attribute):
+                direct.add(n.targets[0].id)
+        for n in own_nodes(f):
+            recv = None
+            if isinstance(n, ast.AugAssign) and isinstance(n.op, (ast.Add, ast.Sub)):
+                recv = n.target
+            elif isinstance(n, ast.Call) and isinstance(n.func, ast.Attribute) and n.func.attr in ("add", "addN", "remove", "remove_graph", "parse"):
+                recv = n.func.value if n.func.attr != "remove_graph" else (n.args[0] if n.args else None)
+            elif isinstance(n, ast.Return) and n.value is not None and q.startswith("_graph"):
+                # helpers that hand out the graph to be mutated
+                recv = n.value.elts[0] if isinstance(n.value, ast.List) and n.value.elts else n.value
+            if recv is None:
+                continue
+            txt = norm(recv)
+            is_ctx_graph = txt in ("ctx.graph",) or (isinstance(recv, ast.Name) and recv.id in direct)
+            uses_selector = any(isinstance(c, ast.Call) and norm(c.func) in selectors for c in ast.walk(recv)) or (
+                isinstance(recv, ast.Name) and any(isinstance(a, ast.Assign) and norm(a.targets[0]) == recv.id and (
+                    any(isinstance(c, ast.Call) and norm(c.func) in selectors for c in ast.walk(a.value)) or "default_context" in norm(a.value)) for a in own_nodes(f)))
+            if not (is_ctx_graph or uses_selector or "ctx.graph" in txt):
+                continue
+            nsites += 1
+            rep.ob("C10.i-writes-target-real-default-graph", up, q, n if not isinstance(n, ast.Return) else "return %s" % txt, not is_ctx_graph,
+                   "target resolved to the real default graph" if not is_ctx_graph else
+                   "the write (or the graph handed out for writing) is `ctx.graph` itself: on a Dataset/ConjunctiveGraph with the union switch on this is the union view - the operation hits every graph (or fails) instead of the default graph", node=n)
+    if not selectors:
+        rep.ob("C10.i-writes-target-real-default-graph", up, "<module>", "a default-graph selector exists", False, "no function maps a dataset-typed ctx.graph to its default_context", node=up.tree)
